@@ -1707,30 +1707,15 @@ dt_dtdiff(dt_dtdurtyp_t tgttyp, struct dt_dt_s d1, struct dt_dt_s d2)
 			zidx_t i_d1 = leaps_before(d1);
 			zidx_t i_d2 = leaps_before(d2);
 
-# if BYTE_ORDER == BIG_ENDIAN
-			/* not needed on little-endians
-			 * the little means just that */
+			/* repack, the soft slot and the corr slot share
+			 * their space with the sexydur ass'ment above and
+			 * a negative one leaves clutter in the corr slot */
 			res.soft = sxdur;
-# elif BYTE_ORDER == LITTLE_ENDIAN
-
-# else
-#  warning unknown byte order
-# endif	/* BYTE_ORDER */
-
+			res.corr = 0;
 			if (UNLIKELY(i_d1 != i_d2)) {
 				int nltr = leaps_corr[i_d2] - leaps_corr[i_d1];
 
 				res.corr = nltr;
-# if BYTE_ORDER == BIG_ENDIAN
-			} else {
-				/* always repack res.corr to remove clutter
-				 * from the earlier res.sexydur ass'ment */
-				res.corr = 0;
-# elif BYTE_ORDER == LITTLE_ENDIAN
-
-# else
-#  warning unknown byte order
-# endif	 /* BYTE_ORDER */
 			}
 		}
 #endif	/* WITH_LEAP_SECONDS */
